@@ -25,7 +25,7 @@ Definition amap_eqb (a b : amap) : bool :=
   (fix go (x y : amap) : bool :=
      match x, y with
      | [], [] => true
-     | (k, v) :: x', (k', v') :: y' => N.eqb k k' && String.eqb v v' && go x' y'
+     | (k, v) :: x', (k', v') :: y' => teqb k k' && String.eqb v v' && go x' y'
      | _, _ => false
      end) a b.
 
